@@ -5,7 +5,10 @@
     [run t0 accts ops] is the state after the history [ops] (binds, name transfers and
     deletions, adds incl. identical re-adds, updates of value/type/expiration, deletes by name
     and by value, direct purges, blocks with the begin-block sweep) from the empty store at
-    block time [t0], where [accts] says which addresses have an account.  [step s o] is
+    block time [t0], where [accts] says which addresses have an account.  Names are identified
+    by their normalised form; the attribute messages carry, as last argument, the spelling class
+    of the name string actually sent (other letter case, spaces around or inside), and the
+    theorems hold for every spelling.  [step s o] is
     (state after, accepted?).  All theorems quantify over every such history. *)
 From Coq Require Import ZArith List Bool String.
 Import ListNotations.
@@ -21,8 +24,8 @@ Theorem C16_only_owner_writes : forall t0 accts ops o,
   let s := run t0 accts ops in
   snd (step s o) = true ->
   match o with
-  | OAdd c _ n _ _ _ | OUpdate c _ n _ _ _ _ | OUpdateExp c _ n _ _
-  | ODelete c _ n | ODeleteDistinct c _ n _ | ODeleteName c n => s_owner s n = Some c
+  | OAdd c _ n _ _ _ _ | OUpdate c _ n _ _ _ _ _ | OUpdateExp c _ n _ _ _
+  | ODelete c _ n _ | ODeleteDistinct c _ n _ _ | ODeleteName c n => s_owner s n = Some c
   | OPurge c n => s_owner s n = Some c \/ (s_owner s n = None /\ fst (step s o) = s)
   | _ => True
   end.
@@ -41,9 +44,9 @@ Theorem C16_disappears_only_when : forall t0 accts ops o r,
   In r (s_recs s) ->
   (forall r', In r' (s_recs s') -> akey r' <> akey r) ->
   match o with
-  | ODelete c a n => a_acct r = a /\ a_name r = n /\ s_owner s n = Some c
-  | ODeleteDistinct c a n v => a_acct r = a /\ a_name r = n /\ a_val r = v /\ s_owner s n = Some c
-  | OUpdate c a n ov _ _ _ => akey r = (a, n, ov) /\ s_owner s n = Some c
+  | ODelete c a n _ => a_acct r = a /\ a_name r = n /\ s_owner s n = Some c
+  | ODeleteDistinct c a n v _ => a_acct r = a /\ a_name r = n /\ a_val r = v /\ s_owner s n = Some c
+  | OUpdate c a n ov _ _ _ _ => akey r = (a, n, ov) /\ s_owner s n = Some c
   | ODeleteName c n | OPurge c n => a_name r = n /\ s_owner s n = Some c
   | OBlock dt => exists e, a_exp r = Some e /\ e < s_now s + dt
   | _ => False
@@ -103,7 +106,7 @@ Print Assumptions C16_checker_holds_on_model.
     name by a stranger is accepted and changes nothing. *)
 Definition ex_accts (a : Z) : bool := (a =? 1) || (a =? 2) || (a =? 3).
 Definition ex_hist : list op :=
-  [OBind 1 1; OAdd 1 2 1 1 3 (Some 105); OAdd 1 2 1 1 5 (Some 120); OBlock 10].
+  [OBind 1 1; OAdd 1 2 1 1 3 (Some 105) 0; OAdd 1 2 1 1 5 (Some 120) 2; OBlock 10].
 Definition ex_rec : attr := {| a_acct := 2; a_name := 1; a_val := 1; a_type := 5; a_exp := Some 120 |}.
 
 Example C16_witness :
@@ -113,9 +116,14 @@ Example C16_witness :
   accounts_by_attribute s 1 [1; 2; 3] = [2] /\
   s_recs (fst (step s (OBlock 10))) = [ex_rec] /\          (* 120 is not before 120 *)
   s_recs (fst (step s (OBlock 11))) = [] /\                (* 120 < 121 *)
-  snd (step s (OAdd 2 3 1 2 3 None)) = false /\            (* stranger *)
-  snd (step s (ODelete 2 2 1)) = false /\
-  snd (step s (ODelete 1 2 1)) = true /\
+  snd (step s (OAdd 2 3 1 2 3 None 0)) = false /\          (* stranger *)
+  snd (step s (ODelete 2 2 1 0)) = false /\
+  snd (step s (ODelete 2 2 1 2)) = false /\                (* stranger, name in another letter case *)
+  snd (step s (ODeleteDistinct 2 2 1 1 2)) = false /\
+  snd (step s (ODelete 1 2 1 2)) = false /\                (* even the owner: DeleteAttribute matches the raw name *)
+  snd (step s (OUpdateExp 1 2 1 1 None 4)) = true /\       (* normalised: any spelling, owner *)
+  snd (step s (OUpdateExp 2 2 1 1 None 4)) = false /\      (* normalised: any spelling, stranger *)
+  snd (step s (ODelete 1 2 1 0)) = true /\
   snd (step s (OPurge 3 2)) = true /\ s_recs (fst (step s (OPurge 3 2))) = [ex_rec].
 Proof. vm_compute. repeat split. Qed.
 
@@ -124,7 +132,7 @@ Proof. vm_compute. repeat split. Qed.
 Example C16_counter_overcounts :
   let s := run 100 ex_accts ex_hist in
   s_cnt s 1 2 = 2 /\ count_recs 1 2 (s_recs s) = 1 /\
-  let s' := fst (step s (ODelete 1 2 1)) in
+  let s' := fst (step s (ODelete 1 2 1 0)) in
   s_recs s' = [] /\ accounts_by_attribute s' 1 [1; 2; 3] = [2].
 Proof. vm_compute. repeat split. Qed.
 
@@ -133,15 +141,15 @@ Example C16_checker_witness :
   Forall (op_ok [1; 2; 3] [1; 2; 3]) ex_hist /\
   check (History 100 [1; 2; 3] [1; 2; 3] [1; 2; 3]
            [(OBind 1 1, Obs true [] [[]; []; []] [Some 1; None; None]);
-            (OAdd 1 2 1 1 3 (Some 105), Obs true [(2, 1, 1, 3, Some 105)] [[2]; []; []] [Some 1; None; None]);
-            (OAdd 1 2 1 1 5 (Some 120), Obs true [(2, 1, 1, 5, Some 120)] [[2]; []; []] [Some 1; None; None]);
+            (OAdd 1 2 1 1 3 (Some 105) 0, Obs true [(2, 1, 1, 3, Some 105)] [[2]; []; []] [Some 1; None; None]);
+            (OAdd 1 2 1 1 5 (Some 120) 2, Obs true [(2, 1, 1, 5, Some 120)] [[2]; []; []] [Some 1; None; None]);
             (OBlock 10, Obs true [(2, 1, 1, 5, Some 120)] [[2]; []; []] [Some 1; None; None]);
             (OBlock 11, Obs true [] [[2]; []; []] [Some 1; None; None])]) = [] /\
   (* what the code did before the repair (attribute gone at the OLD expiration) is flagged *)
   check (History 100 [1; 2; 3] [1; 2; 3] [1; 2; 3]
            [(OBind 1 1, Obs true [] [[]; []; []] [Some 1; None; None]);
-            (OAdd 1 2 1 1 3 (Some 105), Obs true [(2, 1, 1, 3, Some 105)] [[2]; []; []] [Some 1; None; None]);
-            (OAdd 1 2 1 1 5 (Some 120), Obs true [(2, 1, 1, 5, Some 120)] [[2]; []; []] [Some 1; None; None]);
+            (OAdd 1 2 1 1 3 (Some 105) 0, Obs true [(2, 1, 1, 3, Some 105)] [[2]; []; []] [Some 1; None; None]);
+            (OAdd 1 2 1 1 5 (Some 120) 2, Obs true [(2, 1, 1, 5, Some 120)] [[2]; []; []] [Some 1; None; None]);
             (OBlock 10, Obs true [] [[2]; []; []] [Some 1; None; None])])
     = ["corr:attributes @step 3"; "prop:disappears_only_when @step 3"]%string.
 Proof.
